@@ -266,7 +266,7 @@ def gen_size_case(seed, cid):
 def gen_value_case(seed, cid, wrap_in_minmax=False):
     """constants of every type used as values: a generated program in which some literals are constants"""
     rng = random.Random(seed)
-    g = gen_prog.ProgGen(rng, max_depth=2, features={"match", "loops", "structs", "assign", "shadow"})
+    g = gen_prog.ProgGen(rng, max_depth=2, features={"match", "loops", "structs", "assign", "shadow", "helpers"})
     cg = ConstGen(rng)
     cg.wrap_in_minmax = wrap_in_minmax
     cg.usize_may_wrap = True
